@@ -62,6 +62,7 @@ class Canary:
         self.stage = 0
         self.oc: Any = None
         self.done = False
+        self.hold = False       # while set, the canary's origin does not answer (requests stay unanswered upstream)
         hp = self.origin.hostport if self.origin is not None else b''
         if kind == 'forward':
             self.reqs = [b'GET http://%s/c%d HTTP/1.1\r\nHost: %s\r\nX-Req-Id: k%d\r\n\r\n' % (hp, k, hp, k) for k in range(2)]
@@ -80,11 +81,13 @@ class Canary:
         """one causally ordered step of the conversation"""
         c = self.client
         c.pump()
-        if self.ao is not None:
+        if self.ao is not None and not self.hold:
             self.ao.tick()
             for oc in self.ao.conns:
                 oc.send_some()
         if self.kind == 'tunnel':
+            if self.hold and self.stage >= 2:
+                return
             if self.stage == 0:
                 c.send(self.reqs[0])
                 self.stage = 1
@@ -179,27 +182,158 @@ def run_tls_front_silent(case: Dict[str, Any]) -> Dict[str, Any]:
     rig = StepRig(flags, case.get('mode', 'local'))
     viol: List[Dict[str, Any]] = []
     adv = case['adv']
+    what = adv.get('abort') or 'silent-client'
+    obs: Dict[str, int] = {'class:tls-front-silent': 1}
     try:
-        a, b = _socket.socketpair(_socket.AF_UNIX, _socket.SOCK_STREAM)
         from rig.peers import Peer
-        peer = Peer(a, 'silent-tls-client')
-        rig.peers.append(peer)
-        if adv.get('hello'):
-            peer.send(b'\x16\x03\x01\x02\x00\x01\x00\x01\xfc\x03\x03' + b'\x00' * 20)      # the start of a ClientHello, then silence
-        rig.hand_over(b, None)
-        for _ in range(5):
-            rig.step()      # a stalled iteration is turned into LoopDied(STALL) by the rig's watchdog
+        if adv.get('abort'):
+            # a genuine ClientHello, then - once the server's flight has arrived, i.e. provably in the middle of the
+            # handshake - the client goes away with RST or FIN
+            import ssl as _ssl
+            import threading as _threading
+            cctx = _ssl.create_default_context()
+            cctx.check_hostname = False
+            cctx.verify_mode = _ssl.CERT_NONE
+            inc, out = _ssl.MemoryBIO(), _ssl.MemoryBIO()
+            sobj = cctx.wrap_bio(inc, out, server_hostname='front.test')
+            try:
+                sobj.do_handshake()
+            except _ssl.SSLWantReadError:
+                pass
+            hello = out.read()
+            ls = _socket.socket(_socket.AF_INET, _socket.SOCK_STREAM)
+            ls.bind(('127.0.0.1', 0))
+            ls.listen(1)
+            a = _socket.socket(_socket.AF_INET, _socket.SOCK_STREAM)
+            shim._orig_connect(a, ls.getsockname())
+            b, addr = ls.accept()
+            ls.close()
+            peer = Peer(a, 'aborting-tls-client')
+            rig.peers.append(peer)
+            peer.send(hello)
+
+            def aborter() -> None:
+                import select as _select
+                import time as _time
+                end = _time.time() + 5
+                while _time.time() < end:
+                    r, _, _ = _select.select([a], [], [], 0.05)
+                    if r:
+                        break
+                _time.sleep(0.02)
+                if adv['abort'] == 'reset-mid-handshake':
+                    peer.reset_close()
+                else:
+                    peer.close()
+            th = _threading.Thread(target=aborter, daemon=True)
+            th.start()
+            rig.hand_over(b, addr)
+            del b
+            for _ in range(5):
+                rig.step()
+            th.join(6)
+            # the worker must still be able to take another connection
+            rig.step(3)
+            obs['tls_front_aborts'] = 1
+        else:
+            a, b = _socket.socketpair(_socket.AF_UNIX, _socket.SOCK_STREAM)
+            peer = Peer(a, 'silent-tls-client')
+            rig.peers.append(peer)
+            if adv.get('hello'):
+                peer.send(b'\x16\x03\x01\x02\x00\x01\x00\x01\xfc\x03\x03' + b'\x00' * 20)      # the start of a ClientHello, then silence
+            rig.hand_over(b, None)
+            for _ in range(5):
+                rig.step()      # a stalled iteration is turned into LoopDied(STALL) by the rig's watchdog
     except LoopDied as e:
-        viol.append({'key': 'tls-front|silent-client|loop-died:%s' % e.where(), 'detail': {'adversary': adv, 'tb': e.tb[-900:]}})
+        viol.append({'key': 'tls-front|%s|loop-died:%s' % (what, e.where()), 'detail': {'adversary': adv, 'tb': e.tb[-900:]}})
     finally:
         rig.close()
-    return {'viol': viol, 'nontrivial': True, 'sig': 'tls-front-silent/%s' % adv.get('hello'), 'obs': {'class:tls-front-silent': 1},
-            'sample': {'case': case}}
+    return {'viol': viol, 'nontrivial': True, 'sig': 'tls-front/%s/%s' % (what, adv.get('hello')), 'obs': obs, 'sample': {'case': case}}
+
+
+def run_idle_neighbour(case: Dict[str, Any]) -> Dict[str, Any]:
+    """A silent connection is reaped by the idle sweep (the product's own _run_forever cadence, virtual clock) while a canary
+    is in the middle of its conversation on the same worker, and again before a fresh canary."""
+    from rig import vclock
+    rng = random.Random('c05idle:%s:%s' % (case['seed'], case['i']))
+    adv = case['adv']
+    kind = case['canary']
+    mode = 'local'
+    base = baseline(kind, mode)
+    shim.S.reset()
+    vc = vclock.install()
+    T = 5
+    flags = make_flags(['--enable-web-server', '--enable-reverse-proxy', '--timeout', str(T)], plugins=[c04.RouteA, c04.RouteB, c04.Rev], cache_key='c05:idle')
+    rig = StepRig(flags, mode)
+    viol: List[Dict[str, Any]] = []
+    obs: Dict[str, int] = {'class:idle-neighbour': 1, 'canary:' + kind: 1, 'mode:' + mode: 1}
+    try:
+        c04._routes.update({'A': None, 'B': None, 'A2': None})
+        idlers = []
+        for k in range(adv.get('idlers', 1)):
+            p = rig.add_client('unix')
+            if adv.get('partial'):
+                p.send(b'GET http://127.0.0.1:9/x HTTP/1.1\r\nHo')
+            idlers.append(p)
+        rig.step(3)
+        state: Dict[str, Any] = {'advanced': False, 'canary': None}
+
+        class _Stop(Exception):
+            pass
+
+        def before(k: int) -> None:
+            if k == adv.get('advance_at', 10) and not state['advanced']:
+                # from now on the silent connections are overdue.  The canary connects only now, so every bit of its activity
+                # is younger than the jump and it is never overdue itself; the sweep (every 39th iteration of the product's
+                # own _run_forever) then falls before, into the middle of, or after its conversation depending on advance_at.
+                vc.advance(T + 1)
+                state['advanced'] = True
+                state['canary'] = Canary(rig, kind, rng, 'concurrent')
+            cn = state['canary']
+            if cn is not None and not cn.done:
+                cn.act()
+            for p in idlers:
+                p.pump()
+            if cn is not None and cn.done and all(p.ended for p in idlers) and k > adv.get('advance_at', 10) + 45:
+                raise _Stop()
+        try:
+            rig.run_forever_steps(400, before)
+        except LoopDied as e:
+            if not isinstance(e.exc, _Stop):
+                raise
+            rig.dead = None
+        canary1 = state['canary']
+        canary2 = Canary(rig, kind, rng, 'after')
+        for _ in range(4000):
+            if canary2.done:
+                break
+            canary2.act()
+            rig.step()
+        rig.settle([canary1.client, canary2.client], quiet=4)
+        for (cn, when) in ((canary1, 'concurrent'), (canary2, 'after')):
+            t = cn.transcript()
+            if not cn.done:
+                viol.append({'key': 'idle-neighbour|reaped|canary-%s-never-completes' % when, 'detail': {'adversary': adv, 'canary': kind, 'stage': cn.stage}})
+            elif t != base:
+                diffs = {k: monitors.diff_streams(base[k], t[k]) for k in base if base[k] != t[k]}
+                viol.append({'key': 'idle-neighbour|reaped|canary-%s-differs:%s' % (when, ','.join(sorted(diffs))), 'detail': {'adversary': adv, 'diff': diffs}})
+            else:
+                obs['canary_%s_equal' % when] = 1
+        if all(p.ended for p in idlers):
+            obs['idle_connections_reaped'] = len(idlers)
+    except LoopDied as e:
+        viol.append({'key': 'idle-neighbour|reaped|loop-died:%s' % e.where(), 'detail': {'adversary': adv, 'canary': kind, 'tb': e.tb[-1200:]}})
+    finally:
+        rig.close()
+        vclock.uninstall()
+    return {'viol': viol, 'nontrivial': True, 'sig': 'idle/%s/%s' % (sorted(adv.items()), kind), 'obs': obs, 'sample': {'case': case}}
 
 
 def run_case(case: Dict[str, Any]) -> Dict[str, Any]:
     if case['adv']['class'] == 'tls-front-silent':
         return run_tls_front_silent(case)
+    if case['adv']['class'] == 'idle-neighbour':
+        return run_idle_neighbour(case)
     rng = random.Random('c05:%s:%s' % (case['seed'], case['i']))
     mode = case.get('mode', 'local')
     kind = case['canary']
@@ -273,7 +407,48 @@ def run_case(case: Dict[str, Any]) -> Dict[str, Any]:
             canary2.act()
             rig.step()
         rig.settle([canary2.client] + ([canary1.client] if canary1 else []), quiet=4)
-        for (cn, when) in ((canary1, 'concurrent'), (canary2, 'after')):
+        canary3 = None
+        if adv['class'] == 'reverse-switch' and not A.client.closed:
+            # a third canary is in the middle of its conversation (request sent, origin not answering yet) at the moment the
+            # adversary's connection finally ends: whatever the worker releases for the adversary must be the adversary's only
+            # descriptor numbers some work still lists although it has closed them ("stale"): arrange the process's
+            # descriptor table so that the canary's next proxy-side socket is handed exactly such a number
+            stale = set()
+            for reg in rig.ex.registered_events_by_work_ids.values():
+                for fd in reg:
+                    try:
+                        _os.fstat(fd)
+                    except OSError:
+                        stale.add(fd)
+            fillers: List[int] = []
+            if stale:
+                while True:
+                    fd = _os.open('/dev/null', _os.O_RDONLY)
+                    fillers.append(fd)
+                    if fd > max(stale) or len(fillers) > 200:
+                        break
+                obs['stale_numbers_targeted'] = 1
+            canary3 = Canary(rig, kind, rng, 'while-adversary-ends')
+            canary3.hold = True
+            for fd in [f for f in fillers if f in stale]:
+                _os.close(fd)           # the next descriptors the worker opens (upstream connect, dup) land on these numbers
+                fillers.remove(fd)
+            for _ in range(60):
+                canary3.act()
+                rig.step()
+            for fd in fillers:
+                _os.close(fd)
+            A.client.close()
+            for _ in range(12):
+                rig.step()
+            canary3.hold = False
+            for _ in range(4000):
+                if canary3.done:
+                    break
+                canary3.act()
+                rig.step()
+            rig.settle([canary3.client], quiet=4)
+        for (cn, when) in ((canary1, 'concurrent'), (canary2, 'after'), (canary3, 'while-adversary-ends')):
             if cn is None:
                 continue
             t = cn.transcript()
@@ -365,6 +540,12 @@ def cases(tier: str, seed: int):
     # (4c) the proxy's own TLS front and a client that never completes (or never starts) the handshake
     for hello in ((False,) if tier == 'quick' else (False, True, True)):
         yield mk({'class': 'tls-front-silent', 'hello': hello}, mode='local')
+    for rep in range(6 if tier == 'quick' else 60):
+        yield mk({'class': 'tls-front-silent', 'abort': ['reset-mid-handshake', 'fin-mid-handshake'][rep % 2]}, mode=['local', 'remote'][(rep // 2) % 2])
+    # (4d) silent neighbours reaped by the idle sweep while the canary talks
+    for rep in range(40 if tier == 'quick' else 400):
+        yield mk({'class': 'idle-neighbour', 'idlers': rng.choice([1, 2, 3]), 'partial': rng.random() < 0.5, 'advance_at': rng.choice([0, 5, 20, 38, 39, 40])},
+                 canary=CANARIES[rep % 4], mode='local')
     # (5) fault enumeration: every (kind, index, errno) up to the call counts of the fault-free runs
     bounds = {'forward': (6, 4, 1), 'forward-post': (6, 4, 1), 'tunnel': (8, 5, 1), 'web': (4, 3, 0), 'reverse': (7, 5, 1)}
     for role, (nr, ns, nc) in bounds.items():
@@ -378,7 +559,7 @@ def cases(tier: str, seed: int):
 
 def floors(tier: str) -> Dict[str, int]:
     return {'both_registered': 2000, 'canary_concurrent_equal': 2000, 'canary_after_equal': 2500, 'faults_fired': 60,
-            'class:prefix': 200, 'class:bytes': 300, 'class:reverse-switch': 150, 'class:upstream': 60, 'class:fault': 150, 'mode:remote': 100,
+            'class:prefix': 200, 'class:bytes': 300, 'class:reverse-switch': 150, 'tls_front_aborts': 4, 'idle_connections_reaped': 30, 'class:upstream': 60, 'class:fault': 150, 'mode:remote': 100,
             'distinct:schedules': 500}
 
 
